@@ -286,7 +286,7 @@ def api_counts(ps, frames):
     return res, calls
 
 
-def oneshot_counts(ps, frames):
+def oneshot_counts(ps, frames, cmds):
     """Does a ONE-SHOT waiter registered with ps react (its future gets the command) to each frame - with an application
     callback for the same command types registered BEFORE it on the same ZBOSS object (a bystander that matches
     everything of those types and must not change what the waiter does)?  One fresh ZBOSS object per frame."""
@@ -294,22 +294,28 @@ def oneshot_counts(ps, frames):
     loop = asyncio.new_event_loop()
     res = []
     try:
-        for fr in frames:
+        for fr, cmd in zip(frames, cmds):
             api = mk_api()
 
-            async def go(api=api, fr=fr):
+            async def go(api=api, fr=fr, cmd=cmd):
                 seen = []
                 for p in ps:
                     if type(p) not in seen:
                         seen.append(type(p))
                 api.register_indication_listeners([cls(partial=True) for cls in seen], lambda cmd: None)
                 fut = api.wait_for_responses(ps)
+                # ... and another bystander registered AFTER the waiter: it reacts to every command of those types, whatever
+                # the waiter in front of it does
+                after = []
+                api.register_indication_listeners([cls(partial=True) for cls in seen], after.append)
                 try:
                     api.frame_received(fr)
                 except Exception as e:  # noqa
                     return "exc:%s" % type(e).__name__
                 await asyncio.sleep(0)
                 r = 1 if (fut.done() and not fut.cancelled()) else 0
+                if len(after) != (1 if type(cmd) in seen else 0):
+                    r = "bystander-after-waiter invoked %d time(s)" % len(after)
                 if not fut.done():
                     fut.cancel()
                 await asyncio.sleep(0)
@@ -354,7 +360,7 @@ def check_listener(ctx, pats, masks, cmds, cmd_targets, lists, bucket):
         # the same collection as a one-shot waiter, behind a bystander callback (sampled: every third list, first 3 frames)
         if l and (k // max(1, len(cmds))) % 3 == 0 and "listener-oneshot" not in ctx.mon:
             sub = list(range(min(3, len(cmds))))
-            oc = oneshot_counts(ps, [frames[j] for j in sub])
+            oc = oneshot_counts(ps, [frames[j] for j in sub], [cmds[j] for j in sub])
             for j, got1 in zip(sub, oc):
                 exp1 = 1 if (inp_mask >> cmd_targets[j]) & 1 else 0
                 chk.evaluations += 1
